@@ -45,7 +45,87 @@ mod verif_replay {
 }
 '''
 
+CHARREADER_TEST = r'''
+#[cfg(test)]
+mod verif_replay {
+    use super::*;
+    struct Chunks { data: Vec<Vec<u8>>, i: usize }
+    impl Read for Chunks {
+        fn read(&mut self, buf: &mut [u8]) -> io::Result<usize> {
+            if self.i >= self.data.len() { return Ok(0); }
+            let c = &self.data[self.i]; self.i += 1;
+            buf[..c.len()].copy_from_slice(c); Ok(c.len())
+        }
+    }
+    // reference decoding with std: characters, and for each invalid sequence the bytes std reports
+    fn reference(mut b: &[u8]) -> Vec<String> {
+        let mut out = vec![];
+        while !b.is_empty() {
+            match std::str::from_utf8(b) {
+                Ok(s) => { for c in s.chars() { out.push(format!("{:?}", c)); } break; }
+                Err(e) => {
+                    let v = e.valid_up_to();
+                    for c in std::str::from_utf8(&b[..v]).unwrap().chars() { out.push(format!("{:?}", c)); }
+                    let n = e.error_len().unwrap_or(b.len() - v);
+                    out.push(format!("ERR{:?}", &b[v..v + n]));
+                    b = &b[v + n..];
+                }
+            }
+        }
+        out
+    }
+    fn run(bytes: &[u8], cuts: &[usize], putback: bool) -> Result<Vec<String>, ()> {
+        let mut chunks = vec![]; let mut s = 0;
+        for &c in cuts { if c > s && c < bytes.len() { chunks.push(bytes[s..c].to_vec()); s = c; } }
+        chunks.push(bytes[s..].to_vec());
+        std::panic::catch_unwind(move || {
+            let mut rd = CharReader::new(Chunks { data: chunks, i: 0 });
+            let mut out = vec![];
+            for _ in 0..40 {
+                if putback { if let Some(Ok(c)) = rd.peek_char() { let _ = rd.read_char(); rd.put_back_char(c); } }
+                match rd.read_char() {
+                    None => break,
+                    Some(Ok(c)) => out.push(format!("{:?}", c)),
+                    Some(Err(e)) => {
+                        let n = e.get_ref().and_then(|x| x.downcast_ref::<BadUtf8Error>()).map(|b| b.bytes.clone()).unwrap_or_default();
+                        out.push(format!("ERR{:?}", n)); rd.consume(n.len().max(1));
+                    }
+                }
+            }
+            out
+        }).map_err(|_| ())
+    }
+    #[test]
+    fn decoding_is_independent_of_chunking() {
+        std::panic::set_hook(Box::new(|_| {}));
+        let alphabet: [u8; 6] = [b'a', 0xe2, 0x82, 0xac, 0xff, 0xf0];
+        let mut fails = 0;
+        for len in 1..=6usize {
+            let total = 6usize.pow(len as u32);
+            for code in 0..total {
+                let mut v = vec![]; let mut c = code;
+                for _ in 0..len { v.push(alphabet[c % 6]); c /= 6; }
+                let expect = reference(&v);
+                for mask in 0..(1usize << (len - 1)) {
+                    let cuts: Vec<usize> = (1..len).filter(|i| mask & (1 << (i - 1)) != 0).collect();
+                    for &pb in &[false, true] {
+                        let got = run(&v, &cuts, pb);
+                        let ok = match &got { Ok(g) => *g == expect, Err(_) => false };
+                        if !ok && fails < 12 {
+                            fails += 1;
+                            println!("REPLAY-FAIL bytes {:?} split at {:?} putback={}: got {} expected {:?}", v, cuts, pb,
+                                     match &got { Ok(g) => format!("{:?}", g), Err(_) => "PANIC".to_string() }, expect);
+                        }
+                    }
+                }
+            }
+        }
+    }
+}
+'''
+
 FAMILIES = {
+    "charreader": {"file": "src/parser/char_reader.rs", "module": CHARREADER_TEST, "filter": "verif_replay"},
     "heap": {"file": "src/machine/heap.rs", "module": HEAP_TEST, "filter": "verif_replay"},
 }
 
